@@ -20,7 +20,7 @@ RULE = ('One case = one host (real LinuxAppEnvironment / RuleMgr / EndpointsMgr 
         '_cleanup_network directly; 45% of the containers first get one or two finish attempts that are interrupted - a kill at '
         'a boundary step, a failing ipset / conntrack call, or a kill right after the network request link was removed, which '
         'lets the network service hand the VIP (lowest free address, as VipMgr does) to the next container - while other '
-        'containers start and finish in between, then the complete run; followed by 0-2 immediate repeats), and late repeats of '
+        'containers start and finish in between, then the complete run - 15% of these while the restarted network service re-processes that very request (the real ResourceService._on_created around the daemon stand-in; the finish runs inside on_create_request); followed by 0-2 immediate repeats), and late repeats of '
         'the finish of already finished containers (after their VIP has been handed to a newer container). Oracle (snapshot arithmetic over rules/, endpoints/ and the IP-set model, '
         'written from the statement): D(A) = snapshot after A\'s start minus snapshot before it; after a completed finish of A '
         'the snapshot equals the one before that finish minus exactly D(A) (nothing added, nothing outside D(A) removed, nothing '
@@ -309,8 +309,19 @@ def _run_op(ctx, host, containers, op, initial, case, flags):
                 cut = (kind, 1 + int(arg * (n if kind == 'kill' else max(1, n // 3))))
         before = host.snapshot()
         vip_held = c.unique in host.vips
-        status = _driven(ctx, lambda: host.finish(c, op['via'], cut), 'finish', case,
-                         witness=_finish_witness(host, c))
+        if op.get('during_replay') and cut is None and not c.shared and c.unique in host.vips:
+            def replayed_finish():
+                res = host.replay_network_requests(during=(c, lambda: host.finish(c, op['via'], None)))
+                if 'during' not in res:
+                    return host.finish(c, op['via'], None)       # its request was gone already: an ordinary finish
+                ctx.count('finish_while_network_service_replays_the_request')
+                if res['died']:
+                    ctx.count('network_service_died_on_vanished_request')
+                return res['during']
+            status = _driven(ctx, replayed_finish, 'finish', case, witness=_finish_witness(host, c))
+        else:
+            status = _driven(ctx, lambda: host.finish(c, op['via'], cut), 'finish', case,
+                             witness=_finish_witness(host, c))
         after = host.snapshot()
         complete = status != 'interrupted'
         suffix = ''
